@@ -64,6 +64,10 @@ func (g *textGen) termText(t Term) []string {
 	case 'v':
 		return []string{"$" + t.N}
 	case 'i':
+		// base 10 whatever the number of leading zeros (fix "integer literals are base 10")
+		if g.r != nil && g.wild && t.I >= 0 && g.r.Chance(1, 6) {
+			return []string{Pick(g.r, []string{"0", "00", "000"}) + fmt.Sprint(t.I)}
+		}
 		return []string{fmt.Sprint(t.I)}
 	case 's':
 		return []string{"\"" + t.N + "\""}
